@@ -102,3 +102,20 @@ def expected_deb822(doc, text):
             g.append([key_of(name), lines])
         out.append(g)
     return out
+
+
+def dense_document(rng, nparas):
+    """many one- or two-field paragraphs with short values, to be rendered with separators of two to four blank
+    lines: whatever block or buffer size a reader uses, some boundary falls inside a separator, inside a
+    name, on a colon and on a continuation line"""
+    doc = []
+    for i in range(nparas):
+        k = rng.random()
+        if k < .7:
+            doc.append([[rng.choice(['A', 'Bc', 'Package']), rng.choice(['b', 'é', 'x y', '1']), []]])
+        elif k < .9:
+            doc.append([['P', 'v%d' % i, []], ['Q', 'w', [' c', ' .', ' d'][:rng.randint(0, 3)]]])
+        else:
+            doc.append(paragraph(rng, 3))
+    seps = [rng.randint(2, 4) for _ in doc]
+    return doc, seps
